@@ -71,6 +71,34 @@ MustKeep(wt, sum) == wt * 10000 > sum
 MustDrop(wt, sum) == wt * 10000 < sum
 KeptOK(obs, wt, sum) == IF MustKeep(wt, sum) THEN obs = wt ELSE IF MustDrop(wt, sum) THEN obs = 0 ELSE obs \in {0, wt}
 
+\* ---- the same rule in the LOGIT domain (frames of a wide dynamic range; round 8) ----------------------------------
+\* The stub above hands out log-weights whose spread inside a frame is ln(30000 / 2) < 10.  Real networks emit frames whose
+\* logits spread over 60, 100 or 800 units and sit on a large common offset; the statement is about the POSTERIOR, which is a
+\* function of the distances below the frame's top logit only:  a frame of C classes has the integer logits off - D(c), D(c) >= 0,
+\* D = 0 for the top class;  posterior(c) = e^-D(c) / S,  S = sum over the classes of e^-D  (1 <= S <= C; off cancels).
+\* A logit is kept iff e^-D * 10^4 >= S.  Exp8(d) = round(10^8 * e^-d) (0 beyond d = 19) makes that integer arithmetic:
+\*   D <= 6            : e^-6 * 10^4 = 24.8 > 1.02 * C for C <= 16                         -> must be kept
+\*   D >= 10           : e^-10 * 10^4 = 0.45 < 1 <= S                                      -> must be dropped
+\*   D in 7..9         : Exp8(D) * 10^4 against S8 = 10^8 * S with a band of 2 % (float32 round-off of the code's softmax
+\*                       is ~1e-6: more than 1000 x); inside the band both outcomes are admitted
+Exp8Tab == <<100000000, 36787944, 13533528, 4978707, 1831564, 673795, 247875, 91188, 33546, 12341, 4540, 1670, 614, 226, 83,
+             31, 11, 4, 2, 1>>
+Exp8(d) == IF d < Len(Exp8Tab) THEN Exp8Tab[d + 1] ELSE 0
+ASSUME /\ Exp8(0) = 100000000
+       /\ \A d \in 0..4 : Exp8(d) \div (Exp8(d + 1) \div 1000) \in 2700..2740    \* e = 2.718... (32-bit integers)
+       /\ \A d \in 5..11 : (Exp8(d) * 1000) \div Exp8(d + 1) \in 2700..2740
+       /\ \A d \in 0..30 : Exp8(d + 1) <= Exp8(d)
+RECURSIVE SpAcc(_, _)
+SpAcc(ds, k) == IF k = 0 THEN 0 ELSE Exp8(ds[k]) + SpAcc(ds, k - 1)
+\* S8 of a frame whose classes next to the top lie ds[1], ds[2], ... below it and all remaining ones fl below it
+SpSum8(ds, fl, C) == Exp8(0) + SpAcc(ds, Len(ds)) + (C - 1 - Len(ds)) * Exp8(fl)
+SpMaxC == 16
+SpMustKeep(D, s8) == IF D <= 6 THEN TRUE ELSE (D <= 9 /\ Exp8(D) * 10000 > s8 + s8 \div 50)
+SpMustDrop(D, s8) == IF D >= 10 THEN TRUE ELSE (D >= 7 /\ Exp8(D) * 10000 < s8 - s8 \div 50)
+\* obs = the stored value (0 = not stored), val = the logit
+SpStoredOK(obs, val, D, s8) == IF SpMustKeep(D, s8) THEN obs = val ELSE IF SpMustDrop(D, s8) THEN obs = 0 ELSE obs \in {0, val}
+ASSUME \A D \in 0..40 : \A n \in 1..SpMaxC : ~(SpMustKeep(D, n * Exp8(0)) /\ SpMustDrop(D, n * Exp8(0)))
+
 \* ---- process_lines ------------------------------------------------------------------------------------------
 \* sorted(enumerate(lines), key=-width): Python's sort is stable
 SortedIds(ws) == SortSeq([i \in 1..Len(ws) |-> i], LAMBDA a, b : ws[a] > ws[b] \/ (ws[a] = ws[b] /\ a < b))
